@@ -334,7 +334,7 @@ def _c09_nontrivial(line, verdict):
     return verdict.startswith("ok") and "no-claim" not in verdict and "no-known-zero" not in verdict
 
 PROPS["C09"] = {
-    "modules": ["IbexProofs.Props.C09", "IbexProofs.Props.C09exist", "IbexProofs.Props.C09rules"],
+    "modules": ["IbexProofs.Props.C09", "IbexProofs.Props.C09exist", "IbexProofs.Props.C09exact", "IbexProofs.Props.C09rules"],
     "harnesses": ["h_newton"],
     "workloads": lambda tier, seed: [{"harness": "h_newton", "tag": "newton", "args": ["c09", seed, 350 if tier == "quick" else 6000]}],
     "nontrivial": _c09_nontrivial,
@@ -345,8 +345,9 @@ PROPS["C09"] = {
             "with VarSet): success => SolClaim certified by the Krawczyk + regular-Jacobian certificates or refuted by known zeros / by interval exclusion; "
             "PdcHansenFeasibility (inflating or not): YES => the returned box contains a zero (known zero, Krawczyk certificate on a sub-box) and is refuted when "
             "interval evaluation on a subdivision excludes a zero; non-trivial = a decided claim",
-    "assumptions": ["claims that are neither certified nor refuted are tagged `uncertified` (tiny existence boxes of a few ulps: the outward-rounded Krawczyk test of the "
-                    "model is not sharp enough; non-rational operators; thick constants) and counted in the verdict histogram",
+    "assumptions": ["claims that are neither certified nor refuted are tagged `uncertified` (non-rational operators; thick constants; wide parameter ranges) and counted in "
+                    "the verdict histogram; existence boxes a few ulps wide are decided by the certificates evaluated with EXACT rational interval arithmetic "
+                    "(existCertVarsX, exists_zero_of_certX)",
                     "LoupFinderCertify is exercised through PdcHansenFeasibility (inflating mode), its only source of feasibility claims"],
     "trusted": ["expr_io.h dumper", "harness h_newton"],
     "technique": "Lean 4 proof (existence by Banach fixed point of the Krawczyk operator, uniqueness by regular interval Jacobian + mean value theorem, "
